@@ -46,7 +46,7 @@ func vTripleEq(a, b vTriple) bool {
 func VC02Index() {
 	tpl, ln, pn := vParam("tpl"), vParam("ln"), vParam("pn")
 	cfg, skip, cs, ord := vParam("cfg"), vParam("skip"), vParam("cs"), vParam("ord")
-	wl := vMakeWorkload(tpl, ln, pn, 0)
+	wl := vMakeWorkload(tpl, ln, pn, vParam("idv")) // idv=1: ids 65535 and 0
 	vExcludeKnownTimes(wl)
 	opts := vOptions(cfg, skip, int64(cs))
 	w, file := vWriteAll(wl, opts)
